@@ -24,6 +24,16 @@ def cstr(s):
 
 ASSOC = {'n': 'associativity::no_assoc', 'l': 'associativity::ltor', 'r': 'associativity::rtol'}
 
+def mode_defines(modes):
+    mask = 0
+    for m in modes:
+        if m in (0, 1, 7, 8, 9): mask |= 1
+        elif m in (5, 6): mask |= 1 << 5
+        elif m < 20: mask |= 1 << m
+    d = ['-DVF_MODES=0x%xu' % mask]
+    if any(m >= 20 for m in modes): d.append('-DVF_CTX_ANY')
+    return d
+
 def emit_one(g, gi, runtime_ctor=False, limits=None, extra_decl=''):
     o = ['namespace g%d {' % gi]
     for i, n in enumerate(g.nts):
@@ -49,7 +59,7 @@ def emit_one(g, gi, runtime_ctor=False, limits=None, extra_decl=''):
         if t.typed:
             if ref[0] in '\'"':
                 o.append('constexpr %s t%d(%s);' % ('char_term' if t.kind == 'c' else 'string_term', j, ref)); ref = 't%d' % j
-            o.append('constexpr typed_term tt%d(%s, vf::TT<%d>{});' % (j, ref, j)); ref = 'tt%d' % j
+            o.append('constexpr typed_term tt%d(%s, vf::TT<%d, %s>{});' % (j, ref, j, VT[getattr(g, 'tvtype', 'V')])); ref = 'tt%d' % j
         tref.append(ref)
     rules = []
     is_ctx = False
@@ -90,7 +100,7 @@ def emit_tu(grammars, runtime_ctor=(), limits=None):
     o.append('static void dispatch(int gi, long idx, int mode, const std::string& in) {')
     o.append('  switch (gi) {')
     for gi in range(len(grammars)):
-        o.append('  case %d: if (idx < 0) vf::dump(g%d::get(), %d); else if constexpr (g%d::is_ctx) vf::run_ctx(g%d::get(), %d, idx, mode, in); else vf::run_plain(g%d::get(), %d, idx, mode, in); break;' % ((gi,) * 8))
+        o.append('  case %d: if (idx < 0) vf::dump(g%d::get(), %d); else if constexpr (g%d::is_ctx) vf::run_ctx(g%d::get(), %d, idx, mode, in); else {\n#ifdef VF_CTX_ANY\n    if (mode >= 20) vf::run_ctx(g%d::get(), %d, idx, mode, in); else\n#endif\n    vf::run_plain(g%d::get(), %d, idx, mode, in); } break;' % ((gi,) * 10))
     o.append('  }\n}')
     o.append('int main(int argc, char** argv) { return vf::main_loop(argc, argv, dispatch); }')
     return '\n'.join(o) + '\n'
